@@ -224,6 +224,17 @@ class SymExec:
             if isinstance(op, ast.IsNot):
                 res = not res
             return 'true' if res else 'false'
+        if isinstance(op, (ast.In, ast.NotIn)) and r[0] == 'tuple' and l[0] != 'tuple':
+            # membership in a literal tuple / list: disjunction of equalities
+            eqs = [self.compare(l, ast.Eq(), e) for e in r[1]]
+            if 'true' in eqs:
+                disj = 'true'
+            else:
+                eqs = [e for e in eqs if e != 'false']
+                disj = 'false' if not eqs else (eqs[0] if len(eqs) == 1 else '(' + ' || '.join(eqs) + ')')
+            if isinstance(op, ast.In):
+                return disj
+            return {'true': 'false', 'false': 'true'}.get(disj, f"(!{disj})")
         if l[0] == 'tuple' and r[0] == 'tuple' and isinstance(op, (ast.Eq, ast.NotEq)):
             # tuples of equal length: elementwise (in)equality
             if len(l[1]) != len(r[1]):
